@@ -64,6 +64,12 @@ SPECIALS = [
     ("ansi", "CREATE TABLE s1.st AS SELECT c1 FROM {b}; ALTER TABLE s1.st RENAME TO {a}; INSERT INTO {c} SELECT c1 FROM {a}"),
     ("mysql", "CREATE TABLE s1.st AS SELECT c1 FROM {b}; RENAME TABLE s1.st TO {a}; INSERT INTO {c} SELECT c1 FROM {a}"),
     ("ansi", "INSERT INTO {a} SELECT c1 FROM s1.tb; ALTER TABLE {a} RENAME TO s1.tz; INSERT INTO {c} SELECT c1 FROM s1.tz"),
+    # with a metadata provider that knows the tables under the default schema (dialect suffix +md): lookups must use S
+    ("ansi+md", "INSERT INTO {a} SELECT c1, c2 FROM {b} JOIN {c} ON 1 = 1"),
+    ("ansi+md", "INSERT INTO {a} SELECT * FROM {b}"),
+    ("ansi+md", "INSERT INTO {a} SELECT c1 FROM {b}, {c}; INSERT INTO s1.tz SELECT c2 FROM {c} JOIN {b} ON 1 = 1"),
+    ("ansi+md", "INSERT INTO {a} SELECT c1, c9 FROM {b} JOIN s1.t9 ON 1 = 1"),
+    ("ansi+md", "CREATE TABLE {a} AS SELECT c1 FROM {b}; INSERT INTO s1.tz SELECT * FROM {a}"),
 ]
 
 
@@ -81,18 +87,29 @@ def canon_obs(o: dict) -> dict:
     return {k: o[k] for k in ("source", "target", "intermediate", "pairs", "paths", "cyto_table", "cyto_column")}
 
 
+def provider_for(dialect, S):
+    """(analyzer, provider): 'ansi+md' = ansi with a provider knowing tb, tc under the default schema S"""
+    if not dialect.endswith("+md"):
+        return dialect, None
+    from sqllineage.core.metadata.dummy import DummyMetaDataProvider
+
+    sch = S or "<default>"
+    return dialect[:-3], DummyMetaDataProvider({f"{sch}.tb": ["c1", "id"], f"{sch}.tc": ["c2", "id"], "s1.t9": ["c9", "id"]})
+
+
 def observe_under(sql, dialect, S, mech):
     from sqllineage.config import SQLLineageConfig
 
+    dialect, prov = provider_for(dialect, S)
     if S is None:
-        return canon_obs(observe.observe(sql, dialect, level="full"))
+        return canon_obs(observe.observe(sql, dialect, provider=prov, level="full"))
     if mech == "scoped":
         with SQLLineageConfig(DEFAULT_SCHEMA=S):
-            return canon_obs(observe.observe(sql, dialect, level="full"))
+            return canon_obs(observe.observe(sql, dialect, provider=prov, level="full"))
     # environment mechanisms: the variable is (already / now) in the environment
     os.environ["SQLLINEAGE_DEFAULT_SCHEMA"] = S
     try:
-        return canon_obs(observe.observe(sql, dialect, level="full"))
+        return canon_obs(observe.observe(sql, dialect, provider=prov, level="full"))
     finally:
         if mech == "env-after-import":
             del os.environ["SQLLINEAGE_DEFAULT_SCHEMA"]
@@ -103,7 +120,8 @@ def _eval(task):
     got = observe_under(orig, dialect, S, mech)
     saved = os.environ.pop("SQLLINEAGE_DEFAULT_SCHEMA", None)
     try:
-        exp = canon_obs(observe.observe(qual, dialect, level="full"))
+        d2, prov = provider_for(dialect, S)
+        exp = canon_obs(observe.observe(qual, d2, provider=prov, level="full"))
     finally:
         if saved is not None:
             os.environ["SQLLINEAGE_DEFAULT_SCHEMA"] = saved
